@@ -19,7 +19,7 @@ if [ "$1" = "--one" ]; then
   out=$(./check $prop --repo $S/r --no-evidence 2>&1); ec=$?
   t1=$(date +%s)
   if [ $ec -eq 0 ] && ! echo "$out" | grep -q VIOLATION; then
-    echo "quiet $(basename $f) [$prop] $((t1-t0))s $(echo "$out" | grep -c '^carried over') carried"
+    echo "quiet $(basename $f) [$prop] $((t1-t0))s $(echo "$out" | grep -c "^carried over") carried $(echo "$out" | grep "^carried over" | grep -c "bounded") bounded"
     exit 0
   fi
   echo "FALSE-ALARM $(basename $f) [$prop] $((t1-t0))s exit=$ec: $(echo "$out" | grep -m3 'refuted obligation\|no longer\|missing\|engine' | cut -c1-200 | tr '\n' ' ')"
